@@ -82,6 +82,11 @@ class Gen:
             if len(parts) > 2:
                 return parts[0], ".".join(parts[1:])
             return m, c
+        if r < prefer_trusted + 0.03:
+            # a package that is already imported and loads its sub-modules lazily (module-level __getattr__, like scipy/numpy):
+            # even a getattr on it runs code
+            self.ncanary += 1
+            return "verif_canary_lazy", "sub%d" % self.ncanary
         if r < prefer_trusted + 0.25:
             self.ncanary += 1
             mod = CANARY % self.ncanary
